@@ -232,7 +232,7 @@ def gen(rng, tier):
         return [gen_case(rng, rng.range(3, 6), 4) for _ in range(80)]
     if tier == "search":
         return [gen_case(rng, rng.range(3, 7), 4) for _ in range(150)]
-    return [gen_case(rng, rng.range(3, 9), 5) for _ in range(700)]
+    return [gen_case(rng, rng.range(3, 9), 5) for _ in range(1400)]
 
 
 def run(binp, cases):
